@@ -232,7 +232,10 @@ def run(ctx):
         ai = ri = 0
         for g, N, eps in runs:
             H0 = g["H"].copy(); T0 = H0 if g["shared"] else g["T"].copy()
-            out = L.optimize_layout_euclidean(H0, T0, g["head"], g["tail"], list(range(N + 1)), g["nv"], eps.copy(), g["a"], g["b"], g["seed"].copy(),
+            # an epoch list in arbitrary order: the run uses max(list) epochs and returns the snapshots in increasing epoch order
+            sub = sorted(rng.sample(range(N), rng.randint(0, N - 1)))
+            elist = sub + [N]; rng.shuffle(elist)
+            out = L.optimize_layout_euclidean(H0, T0, g["head"], g["tail"], list(elist), g["nv"], eps.copy(), g["a"], g["b"], g["seed"].copy(),
                                               gamma=g["gamma"], initial_alpha=g["alpha0"], negative_sample_rate=g["rate"], parallel=False, move_other=g["move_other"])
             H = g["H"].copy(); T = H if g["shared"] else g["T"].copy()
             nh = H.shape[0]
@@ -247,11 +250,12 @@ def run(ctx):
             desc = dict(n_epochs=N, alpha0=g["alpha0"], a=g["a"], b=g["b"], gamma=g["gamma"], rate=g["rate"], move_other=g["move_other"], shared=g["shared"],
                         head=g["head"], tail=g["tail"], epochs_per_sample=eps, H=g["H"], T=g["T"], seed=g["seed"])
             ctx.traces += 1; ctx.tag(("run", r), ["whole_run"])
-            same = len(out) == N + 1 and all(np.array_equal(out[i], snaps[min(i, N - 1)], equal_nan=True) for i in range(N + 1))
+            want = [snaps[n_] for n_ in sub] + [snaps[N - 1]]
+            desc["epoch_list"] = elist
+            same = isinstance(out, list) and len(out) == len(want) and all(np.array_equal(o_, w_, equal_nan=True) for o_, w_ in zip(out, want))
             if not same:
                 ctx.diff(desc, "optimize_layout_euclidean differs from the kernel replayed under the model's schedule (alpha / RNG derivation / clocks / snapshots)")
                 # oracle: learning rate must decay linearly from alpha0 to 0 -> last epoch uses alpha0*(1-(N-2)/N); largest move bounded accordingly
-                lastmove = np.abs(out[-1].astype(np.float64) - out[-3].astype(np.float64)).max() if N >= 3 else 0
                 ctx.fail("optimize_layout_euclidean:schedule", "whole run differs from the SGD schedule of the property (learning-rate decay, per-vertex RNG, clocks)", desc)
     # ---- (4) epochs_per_sample and pruning, observed through simplicial_set_embedding --------------------
     captured = {}
